@@ -163,6 +163,8 @@ MUTANTS = [
     ("C18", "cdf-unsorted", "typhon/retrieval/bmci/bmci.py", "        self.x_sorted_inds = np.argsort(self.x)", "        self.x_sorted_inds = np.arange(self.x.size)"),
     ("C18", "window-too-narrow", "typhon/retrieval/bmci/bmci.py", "        s_l = y_proj - np.sqrt(2.0 * x2_max / self.pc1_e)", "        s_l = y_proj + np.sqrt(2.0 * x2_max / self.pc1_e)"),
     ("C18", "std-no-weights", "typhon/retrieval/bmci/bmci.py", "                    (self.x[i_l:i_u].ravel() - xs[i]) ** 2.0 * ws.ravel() / c))", "                    (self.x[i_l:i_u].ravel() - xs[i]) ** 2.0 / max(1, i_u - i_l)))"),
+    ("C20", "zip-kept-as-cache-marker", "typhon/topography.py", "        r = urllib.request.urlopen(url)\n\n        filename = os.path.join(_get_data_path(), name + \".dem.zip\")\n        path = os.path.join(filename)\n        with open(path, 'wb') as f:\n            shutil.copyfileobj(r, f)\n", "        filename = os.path.join(_get_data_path(), name + \".dem.zip\")\n        path = os.path.join(filename)\n        if not os.path.exists(path):\n            r = urllib.request.urlopen(url)\n            with open(path, 'wb') as f:\n                shutil.copyfileobj(r, f)\n"),
+    ("C20", "cache-lookup-lower-case", "typhon/topography.py", "        dem_file = os.path.join(_get_data_path(), (name + \".dem\").upper())", "        dem_file = os.path.join(_get_data_path(), name + \".dem\")"),
     ("C20", "seam-row-duplicated", "typhon/topography.py", "            inds_lat = np.logical_and(lat_min <= lats, lats < lat_max)\n            inds_lon = np.logical_and(lon_min <= lons, lons < lon_max)\n            inds_s", "            inds_lat = np.logical_and(lat_min <= lats, lats <= lat_max + SRTM30._dlat)\n            inds_lon = np.logical_and(lon_min <= lons, lons < lon_max)\n            inds_s"),
     ("C20", "trunc-to-round", "typhon/topography.py", "        i_min = np.trunc((90 - lat_max) / SRTM30._dlat)", "        i_min = np.round((90 - lat_max) / SRTM30._dlat)"),
     ("C20", "old-lat-arithmetic", "typhon/topography.py", "        i_min = np.trunc((90 - lat_max) / SRTM30._dlat)\n        i = (90 - lat_min) / SRTM30._dlat\n        i_max = np.trunc(i)\n        if not i_max < i:\n            i_max = i_max - 1", "        i_min = np.trunc((90 - lat_max) / SRTM30._dlat) - 1\n        i = (90 - lat_min) / SRTM30._dlat\n        i_max = np.trunc(i) - 1"),
